@@ -120,8 +120,17 @@ func (ex *Exec) callValue(s *State, fr *Frame, instr ssa.Value, cc *ssa.CallComm
 	if model == nil {
 		model = ex.Models[name]
 	}
+	var mret Value
+	var mfork *Fork
+	var merr error
 	if model != nil {
-		ret, fork, err := model(ex, s, cc, args)
+		mret, mfork, merr = model(ex, s, cc, args)
+		if merr == errFallThrough {
+			model, merr = nil, nil
+		}
+	}
+	if model != nil {
+		ret, fork, err := mret, mfork, merr
 		if err != nil {
 			if _, isU := err.(*execError); isU && s.Lenient {
 				ret, fork = Poison{err.Error()}, nil
@@ -220,6 +229,14 @@ func (ex *Exec) applyFork(s *State, instr ssa.Value, fork *Fork) []*State {
 		} else {
 			tf := t.top()
 			ret := a.Ret
+			if le, ok := ret.(lazyEdSet); ok {
+				if err := ex.store(t, le.recv.(Ptr), le.v); err != nil {
+					ex.handleErr(t, err)
+					out = append(out, t)
+					continue
+				}
+				ret = TupleV{le.recv, IfaceV{}}
+			}
 			if lb, ok := ret.(lazyBigSet); ok {
 				if err := ex.store(t, lb.recv.(Ptr), lb.v); err != nil {
 					ex.handleErr(t, err)
@@ -484,7 +501,20 @@ func (ex *Exec) InitPackage(pkg *ssa.Package, allow func(path string) bool) {
 		}
 		succ, _ := ex.step(s)
 		if len(succ) > 1 {
-			s.Status, s.Msg = Errored, "fork during package init"
+			// a symbolic decision inside an initialiser: poison the result of the outermost call
+			s = succ[0]
+			s.Status = Running
+			s.PC = nil
+			if len(s.Stack) >= 1 {
+				s.Stack = s.Stack[:1]
+				top := s.Stack[0]
+				if top.Block != nil && top.IP < len(top.Block.Instrs) {
+					if v, ok := top.Block.Instrs[top.IP].(ssa.Value); ok {
+						top.Locals[v] = Poison{"symbolic decision during package init"}
+					}
+					top.IP++
+				}
+			}
 		} else if len(succ) == 1 {
 			s = succ[0]
 		}
